@@ -57,3 +57,13 @@ service pub {
     type yield(1: type in, 2: i32 as),
     void break(),
 }
+
+// method names that collide after case conversion, with and without leading underscores
+service Clash {
+    i32 fetch(1: i32 a),
+    i32 Fetch(1: i32 a),
+    i32 _probe(1: i32 a),
+    i32 _Probe(1: i32 a),
+    void __init(),
+    void __Init(),
+}
